@@ -179,6 +179,23 @@ func genProduce(prop string, seed uint64) *Plan {
 		if g.pct(10) {
 			g.P.Events = append(g.P.Events, Event{AtMs: g.rng(1, horizon), Kind: "delete_topic", A: g.rng(0, ntopics-1)})
 		}
+		if g.pct(40) {
+			// Close in the middle of the run, with partitions that the
+			// latest metadata reports as leaderless and records buffered
+			// for them (rejected produce or lingering)
+			weights["close"] = 2
+			for i := 0; i < int(g.rng(1, 3)); i++ {
+				g.fault(Fault{Kind: "err_after", Broker: -1, Key: 3, Nth: int(g.rng(2, 10)), Code: ErrLeaderNotAvailable})
+			}
+			if g.pct(50) {
+				g.fault(Fault{Kind: "err_noproc", Broker: -1, Key: 0, Nth: int(g.rng(1, 6)), Code: ErrNotLeader})
+			}
+			if g.pct(50) {
+				k["linger_ms"] = g.pick(50, 500, 5000)
+			}
+			k["meta_min_ms"] = g.pick(100, 2000, 10000)
+			k["meta_max_ms"] = 30000
+		}
 	case "C02":
 		if g.pct(60) {
 			k["retries"] = g.rng(1, 6)
@@ -317,6 +334,16 @@ func genProduce(prop string, seed uint64) *Plan {
 			g.fault(f)
 		}
 	case "C13", "C41":
+		if g.pct(40) {
+			for i := 0; i < int(g.rng(1, 3)); i++ {
+				g.fault(Fault{Kind: "err_after", Broker: -1, Key: 3, Nth: int(g.rng(2, 10)), Code: ErrLeaderNotAvailable})
+			}
+			if g.pct(50) {
+				k["linger_ms"] = g.pick(50, 500, 5000)
+			}
+			k["meta_min_ms"] = g.pick(100, 2000, 10000)
+			k["meta_max_ms"] = 30000
+		}
 		weights["abort"], weights["purge"], weights["cancel"] = 2, 1, 3
 		ctxCancelPct = 20
 		if g.pct(50) {
